@@ -267,7 +267,101 @@ def make_conv(P):
 make_conv("C05")
 
 
+def make_conv_layout(P):
+    @contract(P, "Conv2D.layouts", [(CONV, "Conv2D.presyn_receptive"), (CONV, "Conv2D.postsyn_receptive"), (CONV, "Conv2D.selector"), (CONV, "Conv2D.forward"), (CONV, "Conv2D.__init__")], min_obligations=5)
+    def conv_layouts(c):
+        """the einops patterns of Conv2D are read SYMBOLICALLY (symbolic channel / kernel / output sizes and indices): the
+        kernel tap (c, a, b) must sit at row (c*KH + a)*KW + b of the unfolded layout - F.unfold's documented order - in the
+        flattened kernel, in the per-tap delay selector and in the presynaptic receptive view; output position (oy, ox)
+        must be column oy*OW + ox in forward's result and in the postsynaptic receptive view"""
+        log = []
+        lf.install(c)
+        H, W, C, F_ = 9, 8, c.int("C"), c.int("F")
+        KH, KW = c.int("KH"), c.int("KW")
+        c.require(C >= 1, F_ >= 1, KH >= 1, KW >= 1, KH <= 3, KW <= 3)
+        dt = c.real("dt")
+        c.require(dt > 0)
+        conn = c.call(cls(c, CONV, "Conv2D"), H, W, C, F_, dt, (KH, KW), synapse=lf.synapse_ctor(c, log), delay=dt, bias=True, batch_size=2)
+        OH, OW = num(c.getattr(conn, "outheight")), num(c.getattr(conn, "outwidth"))
+        ci, a, b = c.int("tap_channel"), c.int("tap_row"), c.int("tap_col")
+        oy, ox = c.int("out_row"), c.int("out_col")
+        c.require(0 <= ci, ci < C, 0 <= a, a < KH, 0 <= b, b < KW, 0 <= oy, oy < OH, 0 <= ox, ox < OW)
+        row = (ci.z * KH.z + a.z) * KW.z + b.z  # F.unfold: channel-major, kernel positions row-major
+        col = oy.z * OW + ox.z
+        x = T(c.pw("x").f, "float", None, None, None)
+
+        def last_pattern(needle):
+            hits = [(p, ax) for p, ax in c.rearrange_log if needle in p]
+            return hits[-1] if hits else (None, None)
+
+        def check(label, pattern, axes, side, group_pos, roles, sizes_by_role, expected):
+            """the composite group at `group_pos` of `side`: its flat index, with the axis names bound to their ROLES (decided
+            by where the same names sit on the other side), must equal `expected`"""
+            if pattern is None:
+                c.ensure(label + ":pattern_found", False)
+                return
+            lhs, rhs = (lf.parse_side(s_) for s_ in pattern.split("->"))
+            comp_side, other = (lhs, rhs) if side == "lhs" else (rhs, lhs)
+            group = comp_side[group_pos]
+            ok = isinstance(group, list) and len(group) == len(roles["names"])
+            c.ensure(label + ":composite_axis_present", ok)
+            if not ok:
+                return
+            # role of a name = position of that name among the plain axes of the OTHER side
+            plain = [t for t in other if isinstance(t, str) and t not in ("1", "...")]
+            role_of = {}
+            for name, role in zip([plain[i] for i in roles["positions"]], roles["names"]):
+                role_of[name] = role
+            ok2 = sorted(group) == sorted(role_of)
+            c.ensure(label + ":same_axes_on_both_sides", ok2)
+            if not ok2:
+                return
+            idx = {n: roles["index"][role_of[n]] for n in group}
+            size = {}
+            for n in group:
+                given = axes.get(n)
+                size[n] = num(given) if given is not None else sizes_by_role[role_of[n]]
+                if given is not None:
+                    c.ensure(label + f":size_of_{role_of[n]}_axis", num(given) == sizes_by_role[role_of[n]])
+            c.ensure(label, lf.composite_index(group, idx, size) == expected)
+
+        taps = dict(index={"channel": ci.z, "krow": a.z, "kcol": b.z})
+        tap_sizes = {"channel": C.z, "krow": KH.z, "kcol": KW.z}
+        outs = dict(index={"orow": oy.z, "ocol": ox.z})
+        out_sizes = {"orow": OH, "ocol": OW}
+        # 1. receptive view of synaptic-layout data: 'b (c kh kw) l ... -> b (...) c kh kw l'
+        c.call(c.getattr(conn, "presyn_receptive"), x)
+        p, ax = last_pattern("l ...")
+        check("presyn_receptive:tap_is_its_unfold_row", p, ax, "lhs", 1, dict(taps, positions=[1, 2, 3], names=["channel", "krow", "kcol"]), tap_sizes, row)
+        # 2. per-tap delay selector: 'f c h w -> 1 (c h w) 1 f'
+        c.getattr(conn, "selector")
+        p, ax = last_pattern("1 f")
+        check("selector:delay_of_tap_at_its_unfold_row", p, ax, "rhs", 1, dict(taps, positions=[1, 2, 3], names=["channel", "krow", "kcol"]), tap_sizes, row)
+        # 3. forward: flattened kernel 'f c h w -> f (c h w)' and folded output 'b f (oh ow) -> b f oh ow'
+        c.rearrange_log.clear()
+        c.call(c.getattr(conn, "forward"), x)
+        p, ax = next(((p_, a_) for p_, a_ in c.rearrange_log if p_.strip().startswith("f ") and "(" in p_.split("->")[1]), (None, None))
+        check("forward:kernel_tap_at_its_unfold_row", p, ax, "rhs", 1, dict(taps, positions=[1, 2, 3], names=["channel", "krow", "kcol"]), tap_sizes, row)
+        p, ax = next(((p_, a_) for p_, a_ in reversed(c.rearrange_log) if "(" in p_.split("->")[0] and p_.strip().startswith("b f")), (None, None))
+        check("forward:output_position_is_its_unfold_column", p, ax, "lhs", 2, dict(outs, positions=[2, 3], names=["orow", "ocol"]), out_sizes, col)
+        # 4. receptive view of the output: 'b f oh ow -> b f 1 1 1 (oh ow)'
+        c.rearrange_log.clear()
+        c.call(c.getattr(conn, "postsyn_receptive"), x)
+        p, ax = last_pattern("1 1 1")
+        check("postsyn_receptive:output_position_is_its_unfold_column", p, ax, "rhs", 5, dict(outs, positions=[2, 3], names=["orow", "ocol"]), out_sizes, col)
+        c.canary("canary_column_major_taps", (ci.z * KW.z + b.z) * KH.z + a.z == row)
+
+    return conv_layouts
+
+
+make_conv_layout("C05")
+
+
 MUTANTS = [
+    dict(file=CONV, func="Conv2D.presyn_receptive", old='"b (c kh kw) l ... -> b (...) c kh kw l"', new='"b (c kw kh) l ... -> b (...) c kh kw l"', contracts=["Conv2D.layouts"], name="seed C05d: receptive view decomposes the unfolded rows as (c kw kh)"),
+    dict(file=CONV, func="Conv2D.selector", old='"f c h w -> 1 (c h w) 1 f"', new='"f c h w -> 1 (c w h) 1 f"', contracts=["Conv2D.layouts"], name="seed C06d: delay selector flattens the kernel as (c w h)"),
+    dict(file=CONV, func="Conv2D.presyn_receptive", old='"b (c kh kw) l ... -> b (...) c kh kw l"', new='"b (kh kw c) l ... -> b (...) c kh kw l"', contracts=["Conv2D.layouts"], name="seed C18d: receptive view decomposes the unfolded rows as (kh kw c)"),
+    dict(file=CONV, func="Conv2D.forward", old="oh=self.outheight,\n                ow=self.outwidth,\n            )\n\n        # add bias", new="oh=self.outwidth,\n                ow=self.outheight,\n            )\n\n        # add bias", contracts=["Conv2D.layouts"], name="undelayed forward folds the output with height and width sizes swapped"),
     dict(file="inferno/neural/modeling.py", func="Updater.forward", old="                setattr(module, p, self.updates_[p](getattr(module, p), **kwargs))", new="                getattr(module, p).data = self.updates_[p](getattr(module, p), **kwargs)", contracts=["LinearLateral.trainer_update_keeps_diagonal"], name="updates written to the parameter data directly, bypassing the masked setter"),
     dict(file=LIN, func="LinearDirect.forward", name="seed C05: in-place arithmetic on the tensor returned by the synapse", contracts=["LinearDirect.forward"],
          old="        if self.biased:\n            res = res * self.weight + self.bias\n        else:\n            res = res * self.weight\n", new="        res *= self.weight\n        if self.biased:\n            res += self.bias\n"),
